@@ -163,6 +163,8 @@ pub struct Sim {
     pub need_first_tick: bool,
     /// amount the next manual tick advances the server tick by
     pub next_jump: u32,
+    /// `ToWrap` was performed
+    pub at_wrap: bool,
     /// ticks advanced since the server (re)started; the harness keys its records by tick value, so one run never
     /// covers a full 2^32 cycle
     pub advanced: u64,
@@ -281,6 +283,7 @@ impl Sim {
             from_log: Vec::new(),
             need_first_tick: true,
             next_jump: 1,
+            at_wrap: false,
             advanced: 0,
             clock: 1,
             last_sync: 0,
@@ -578,6 +581,43 @@ impl Sim {
             }
         }
         dying.iter().any(|s| self.ref_replaced_at[*s].is_some_and(|t| t >= self.last_sync))
+    }
+
+    /// every connected client must get an update message at the new tick: at least one replicated entity visible to all
+    /// (profiles with big jumps run without visibility lists)
+    fn can_hop(&self) -> bool {
+        let nslots = self.slots.len();
+        self.cfg.vis == 0 && (0..nslots).any(|s| self.slots[s].is_some() && self.marked[s] && !(self.cfg.periodic && self.entity_has_p(s)))
+    }
+
+    /// Everybody in sync, advance the server tick by `by` (< 2^31) in one tick frame in which every replicated entity
+    /// gets a structural change - so every client-side confirmed tick, the update ticks and the trackers move along
+    /// (ticks 2^31 or more apart are never compared) -, everybody in sync again.
+    fn hop(&mut self, by: impl Fn(u32) -> u32) {
+        let nslots = self.slots.len();
+        for _ in 0..3 {
+            self.lockstep_round();
+        }
+        // (the amount is computed from the tick reached after the rounds above)
+        self.next_jump = by(self.tick()).max(1);
+        for slot in 0..nslots {
+            if self.slots[slot].is_some() && self.marked[slot] {
+                let has = self.slots[slot].is_some_and(|e| self.has_k(e, K::S));
+                if self.cfg.periodic && self.entity_has_p(slot) {
+                    continue;
+                }
+                self.step(&if has { Step::Remove { slot, k: K::S } } else { Step::Insert { slot, k: K::S } });
+            }
+        }
+        let before = self.tick();
+        self.server_frame(true);
+        if (self.tick() as u64) < before as u64 {
+            self.flags.insert("crossed_tick_wrap");
+        }
+        self.flags.insert("big_jump");
+        for _ in 0..3 {
+            self.lockstep_round();
+        }
     }
 
     fn entity_has_p(&self, slot: usize) -> bool {
@@ -1202,38 +1242,43 @@ impl Sim {
                 if !self.cfg.big_jumps || self.cfg.policy != 0 || !self.running {
                     return;
                 }
-                // every connected client must get an update message at the new tick: at least one replicated entity
-                // visible to all (the wrap profile runs without visibility lists)
                 if self.advanced + (1 << 30) + (1 << 22) >= (1u64 << 32) {
                     return;
                 }
-                if self.cfg.vis != 0 || !(0..nslots).any(|s| self.slots[s].is_some() && self.marked[s] && !(self.cfg.periodic && self.entity_has_p(s))) {
+                if !self.can_hop() {
                     return;
                 }
-                for _ in 0..3 {
-                    self.lockstep_round();
+                self.hop(|_| (1u32 << 30) - 64 + (fine as u32 % 128));
+            }
+            Step::ToWrap { before } => {
+                if !self.cfg.big_jumps || self.cfg.policy != 0 || !self.running || self.at_wrap || self.cfg.start_tick < (1 << 16) {
+                    return;
                 }
-                // refresh: every replicated entity gets a structural change at the new tick, so every client-side
-                // confirmed tick, the update ticks and the trackers move along
-                self.next_jump = (1u32 << 30) - 64 + (fine as u32 % 128);
-                for slot in 0..nslots {
-                    if self.slots[slot].is_some() && self.marked[slot] {
-                        let has = self.slots[slot].is_some_and(|e| self.has_k(e, K::S));
-                        if self.cfg.periodic && self.entity_has_p(slot) {
-                            continue;
-                        }
-                        self.step(&if has { Step::Remove { slot, k: K::S } } else { Step::Insert { slot, k: K::S } });
+                if !self.can_hop() {
+                    return;
+                }
+                // (the three rounds after the last hop advance the tick by three: the wrap itself is left to the generated steps)
+                let target = u32::MAX - (before.clamp(3, 15)) as u32;
+                // never once around the whole counter within one case: tick values identify snapshots
+                if self.advanced + target.wrapping_sub(self.tick()) as u64 + (1 << 22) >= (1u64 << 32) {
+                    return;
+                }
+                for _ in 0..5 {
+                    let dist = target.wrapping_sub(self.tick());
+                    if dist == 0 || dist > u32::MAX - 16 {
+                        break;
+                    }
+                    if dist < 8 {
+                        // close enough: the rounds of another hop would carry the tick past the target
+                        break;
+                    }
+                    self.hop(|now| target.wrapping_sub(now).min(1 << 30));
+                    if self.fail.is_some() {
+                        return;
                     }
                 }
-                let before = self.tick();
-                self.server_frame(true);
-                if (self.tick() as u64) < before as u64 {
-                    self.flags.insert("crossed_tick_wrap");
-                }
-                self.flags.insert("big_jump");
-                for _ in 0..3 {
-                    self.lockstep_round();
-                }
+                self.at_wrap = true;
+                self.flags.insert("moved_to_the_tick_wrap");
             }
             Step::ClientFrame { client } => {
                 if client < nclients && self.clients[client].connected {
@@ -1673,6 +1718,9 @@ impl Sim {
         self.last_update_max_alloc = crate::alloc::max_request();
         self.sframes += 1;
         let t = self.tick();
+        if t < before {
+            self.flags.insert("tick_counter_wrapped");
+        }
         let replicated = self.running && t != before;
         if replicated {
             self.repl_epoch += 1;
